@@ -48,10 +48,14 @@ def shards(tier, seed):
     return specs
 
 
-def maker(cls, width, depth, exact=False):
+def maker(cls, width, depth, exact=False, domains=None):
+    """domains: None (the default names "write"/"read") or a (w_domain, r_domain) pair of other names"""
     def make():
         from amaranth.lib import fifo
-        return getattr(fifo, cls)(width=width, depth=depth, exact_depth=exact)
+        if domains is None:
+            return getattr(fifo, cls)(width=width, depth=depth, exact_depth=exact)
+        return getattr(fifo, cls)(width=width, depth=depth, exact_depth=exact, w_domain=domains[0], r_domain=domains[1])
+    make.domains = domains
     return make
 
 
@@ -149,7 +153,9 @@ def run_shard(spec):
             out["samples"].append({"instance": label, "stats": dict(st)})
         else:
             stats = {}
-            ex = F.random_walk(maker(cls, width, depth), width, False, buffered, spec["events"], rng, stats,
+            dn = rng.choice([None, None, ("wr", "rd"), ("pix", "sync"), ("sync", "usb")])
+            stats["domain-names:" + ("default" if dn is None else "+".join(dn))] = stats.get("domain-names:" + ("default" if dn is None else "+".join(dn)), 0) + 1
+            ex = F.random_walk(maker(cls, width, depth, domains=dn), width, False, buffered, spec["events"], rng, stats,
                                drain_bound=BOUND[cls])
             st = ex.stats
             st["transitions"] = spec["events"]
